@@ -224,7 +224,7 @@ def check_expected(ev, prop, results, expected, cfg, rd):
         v = [json.loads(ln) for ln in ls if '"e":"verdict"' in ln]
         if not v:
             continue  # timeout / abort: handled elsewhere
-        verdict = v[0]['verdict']
+        verdict = next((x['verdict'] for x in v if x['verdict'] != 'solved'), 'solved')   # incremental problems: every step
         ev.cov['evaluations'] += 1
         if verdict == 'solved':
             continue
@@ -274,3 +274,38 @@ def replay_problem(prop, path, cfg='dbg_exec'):
                 print(ln[:300])
     v = validate_results(ev, prop, res, 'replay')
     return 1 if v else 0
+
+
+def write_feature_problems(rd, entries):
+    """entries of gen_features (name, parts, solvable) -> [(name, files)] (files may contain '--then' separators)"""
+    import gen_features
+    d = os.path.join(rd, 'gen')
+    os.makedirs(d, exist_ok=True)
+
+    def write(n, t):
+        p = os.path.join(d, n + '.rddl')
+        with open(p, 'w') as fh:
+            fh.write(t)
+        return p
+    return gen_features.as_problems(entries, write)
+
+
+def feature_problems(rd, fams, seed, tier):
+    """the feature-cross families of tools/gen_features.py: returns ([(name, files)], {name: solvable or None})"""
+    import gen_features
+    k = 1 if tier == 'quick' else 8
+    ent = []
+    for fam in fams:
+        if fam == 'timeline':
+            ent += gen_features.timeline_family(seed, 60 * k)
+        elif fam == 'timeline_sv':
+            ent += [e for e in gen_features.timeline_family(seed, 90 * k) if e[0].startswith('ft_sv')]
+        elif fam == 'timeline_rr':
+            ent += [e for e in gen_features.timeline_family(seed, 90 * k) if e[0].startswith('ft_rr')]
+        elif fam == 'inheritance':
+            ent += gen_features.inheritance_family()
+        elif fam == 'tp':
+            ent += gen_features.tp_family(seed, 60 * k)
+        elif fam == 'causal':
+            ent += gen_features.causal_cross_family(seed, 50 * k)
+    return write_feature_problems(rd, ent), {n: s_ for n, p, s_ in ent}
